@@ -176,6 +176,8 @@ def gen_c06(rnd, mode, tier, tolerant_ok=False):
           "perm_seed": 0}
     if tolerant:
         sc["tolerant"] = True
+    if rnd.random() < 0.2:
+        sc["copied"] = rnd.choice(["deepcopy", "pickle"])
     if burst:
         sc["burst"] = n_b
     if mode == "threads":
@@ -216,6 +218,14 @@ def _build(sc):
         SIM.constructing = None
     sm._sim_tag = "A"
     sm._sim_role = "machine"
+    if sc.get("copied"):
+        # the machine under test is a COPY (deepcopy / unpickled): its engine, queue and lock were rebuilt
+        # by __setstate__ and its processing loop has never run when the senders arrive
+        import copy
+        import pickle
+
+        sm = copy.deepcopy(sm) if sc["copied"] == "deepcopy" else pickle.loads(pickle.dumps(sm))
+        SIM.models["A"] = sm.model
     SIM.machines["A"] = sm
     return sm
 
@@ -290,12 +300,20 @@ def hot_lines():
     root = os.path.join(runmod.REPO, "statemachine", "engines")
     if root not in _hot_cache:
         hot = set()
-        pat = re.compile(r"_processing\b|_external_queue\b|\.put\(|processing_loop\(")
+        pat = re.compile(r"_processing\b|_external_queue\b|\.put\(|processing_loop\(|\bLock\(|\.acquire\(|"
+                         r"\.release\(|\b_?lock\b|\.popleft\(")
         for fn in sorted(os.listdir(root)):
             if fn.endswith(".py"):
-                for i, line in enumerate(open(os.path.join(root, fn)), 1):
-                    if pat.search(line) and not line.lstrip().startswith(("#", "def ", "async def ")):
+                lines = open(os.path.join(root, fn)).read().splitlines()
+                for i, line in enumerate(lines, 1):
+                    if pat.search(line) and not line.lstrip().startswith(("#", "def ", "async def ", '"""')):
                         hot.add((fn, i))
+                        # ... and the statement right after it (the 'act' of a check-then-act window)
+                        for j in range(i + 1, min(i + 4, len(lines) + 1)):
+                            nxt = lines[j - 1].strip()
+                            if nxt and not nxt.startswith(("#", '"""')):
+                                hot.add((fn, j))
+                                break
         _hot_cache[root] = hot
     return _hot_cache[root]
 
@@ -684,7 +702,8 @@ class C06(Campaign):
                    "coroutine created early / awaited late", "callback delay 0..1h virtual (stall)",
                    "nested send from a callback", "listener attached by a callback while its event is in progress",
                    "tolerant non-total machine: events that meet no transition when processed are ignored silently",
-                   "burst of 300-1500 sends from one task while another task's event stalls in a callback"]
+                   "burst of 300-1500 sends from one task while another task's event stalls in a callback",
+                   "the machine is a fresh deepcopy / unpickled copy (engine and lock rebuilt, loop never run)"]
     rule = ("one run = a total, fault-free machine and 2-4 concurrent senders (asyncio tasks with seeded "
             "think-times and yielding coroutine callbacks, or OS threads pre-empted at seeded line boundaries), "
             "each sending 1-4 uniquely tokenised events, some callbacks sending nested events. Checked from "
@@ -740,6 +759,7 @@ class C06(Campaign):
              "fault.listener_attached_mid_event": st.get("attach", 0),
              "probe.tolerant_non_total_machine(order search)": 1 if sc.get("tolerant") else 0,
              "fault.burst_while_stalled(events pending at once)": sc.get("burst", 0),
+             "fault.machine_is_a_fresh_copy(" + str(sc.get("copied")) + ")": 1 if sc.get("copied") else 0,
              "fault.preemptions": st.get("switches", 0), "probe.line_steps": st.get("line_steps", 0)}
         for site, n in (ev["res"].get("info", {}).get("sites") or {}).items():
             c["probe.preempt_site." + site] = n
